@@ -16,14 +16,15 @@ RULE = (
     "(os.remove events), spec-hashes file, exit code. Oracle: selected = name-filtered targets minus endpoints unless "
     "--all; removable = existing declared outputs of selected targets not in THAT target's resolved protect set; removed "
     "== removable exactly, everything else byte-identical, records of exactly the selected targets erased (hashing on); "
-    "declined prompt => nothing changes and no os.remove event. Non-trivial: a protected existing output, an endpoint "
+    "declined prompt => nothing changes and no os.remove event; in 15% of the cases one existing declared output is a "
+    "DIRECTORY (os.remove fails on it): it stays, the command still exits 0 and removes every other removable file. Non-trivial: a protected existing output, an endpoint "
     "with existing outputs and a file that is both output and input are present. distinct = (flags, prompt, protect "
     "spelling classes, selection class)."
 )
-ASSUMPTIONS = ["no symlinks; outputs inside the project directory"]
+ASSUMPTIONS = ["no symlinks; outputs inside the project directory", "a declared output that exists as a directory is not a file in the sense of the property: clean may leave it in place"]
 
 
-QUICK_BUDGET = {"cases": 3200, "deadline_s": 170, "case_timeout_s": 60, "floors": {"clean_runs": 1120, "files_compared": 28965, "remove_events_checked": 3000, "declined_checked": 175}}
+QUICK_BUDGET = {"cases": 3200, "deadline_s": 170, "case_timeout_s": 60, "floors": {"clean_runs": 1120, "files_compared": 28965, "remove_events_checked": 3000, "declined_checked": 175, "undeletable_output_cases": 150}}
 THOROUGH_FACTOR = 11  # thorough = the same workload with 11x the cases (floors scale along)
 
 
@@ -69,6 +70,8 @@ def gen_case(rng, idx, tier):
         "hashing": rng.random() < 0.5,
         "protect_shape": rng.choice(["list", "set", "tuple"]),
         "from": rng.choice(["root", "root", "sub", "elsewhere"]),
+        # one declared output exists as a DIRECTORY: os.remove cannot delete it; everything else must still be cleaned
+        "dir_pick": rng.randrange(1 << 30) if rng.random() < 0.15 else None,
     }
 
 
@@ -91,6 +94,14 @@ def run_case(case):
         proj.write_config(cfg)
         for f, tk in case["ticks"].items():
             proj.set_file(f, tk)
+        dir_output = None
+        existing_outs = sorted(o for t in ts for o in t["outs"] if case["ticks"].get(o) is not None)
+        if case.get("dir_pick") is not None and existing_outs:
+            dir_output = existing_outs[case["dir_pick"] % len(existing_outs)]
+            os.remove(proj.path(dir_output))
+            os.makedirs(proj.path(dir_output))
+            proj.write(dir_output + "/inner.txt", "inside a directory that is declared as an output\n")
+            res.mon("undeletable_output_cases")
         proj.write("unrelated.txt", "keep me\n")
         proj.write("data/other.dat", "keep me too\n")
         os.makedirs(os.path.join(root, ".gwf", "logs"), exist_ok=True)
@@ -117,7 +128,7 @@ def run_case(case):
             for p in model.res_outs(t):
                 if os.path.exists(p) and p in prot:
                     protected_existing = True
-                if t["name"] in selected and os.path.exists(p) and p not in prot:
+                if t["name"] in selected and os.path.exists(p) and p not in prot and not os.path.isdir(p):
                     removable.add(p)
         allowed_attempts = set()
         for t in mts:
